@@ -622,3 +622,15 @@ func pathName(owner types.Type, path []int) (string, types.Type) {
 	}
 	return strings.Join(names, "."), t
 }
+
+// chanGhostComps lists the declared ghost components describing channels.
+func (vc *VC) chanGhostComps() []string {
+	var out []string
+	for c := range vc.comps {
+		if strings.HasPrefix(c, "ghost:chan.") {
+			out = append(out, c)
+		}
+	}
+	sort.Strings(out)
+	return out
+}
